@@ -258,6 +258,46 @@ def check_sgio(prog, run):
                 else:
                     run.violation("good-returns", c, "a successful command does not return normally / leaves raw sense %r" % (rawv,),
                                   file, ex.node.lineno, ex.qualname)
+    # two commands through one device object: what the caller asked for the first command (raw sense, and however that
+    # command ended) must not change what happens to the second
+    for first_raw in (True, 1):
+        si = StandIn(prog, check_condition="fork", other_sgio_error="fork").install()
+        try:
+            def t2(first_raw=first_raw):
+                dev = make_scsi_device(prog)
+                cmd1 = marker_cmd(prog, 0, 8)[0]
+                cmd2 = marker_cmd(prog, 0, 8)[0]
+                try:
+                    I.call_function(ex, [dev, cmd1], {"en_raw_sense": first_raw}, None, _F())
+                    first = "returned"
+                except PyRaise:
+                    first = "raised"
+                n0 = len(I.path)
+                try:
+                    I.call_function(ex, [dev, cmd2], {}, None, _F())
+                    second = ("returned", None)
+                except PyRaise as e2:
+                    ec2 = e2.exc_class()
+                    second = ("raised", ec2.name if ec2 is not None else getattr(e2.exc, "name", "?"))
+                return first, second, [d for d, c_, _w, _l in I.path[n0:] if c_], _public(I, cmd2, "raw_sense_data")
+            paths2 = I.explore(t2, max_paths=128)
+        finally:
+            si.remove()
+        for p in paths2:
+            if not p.returned:
+                continue
+            first, second, later, raw2 = p.value
+            if not any("CheckConditionError" in d for d in later):
+                continue
+            nfault += 1
+            c = "SCSIDevice.execute CHECK CONDITION on the command after one run with en_raw_sense=%r (which %s)" % (first_raw, first)
+            if second == ("raised", "CheckCondition"):
+                run.ok("check-condition-raises", c)
+            else:
+                run.violation("check-condition-raises", c,
+                              "the second command's CHECK CONDITION %s: what an earlier command on the same device asked for still applies"
+                              % ("returns normally (raw_sense_data=%r)" % (raw2,) if second[0] == "returned" else "raises %s" % second[1]),
+                              file, ex.node.lineno, ex.qualname, facts={"path": p.cond_str()})
     run.count("sgio_paths", npaths)
     run.floor("SG_IO fault paths", nfault, 4)
 
